@@ -160,7 +160,12 @@ class SG:
         if k == 6:
             return (c.choice(["-", "+", "~", "!"]) + " " + W(e(), M.L_CAST), M.L_UNARY)
         if k == 7 or k == 8:
-            return ("%s ? %s : %s" % (W(e(), 1), W(e(), M.L_COMMA), W(e(), M.L_COND)), M.L_COND)
+            third = e()
+            if c.chance(0.35):
+                # a chain 'a ? b : c ? d : e' (the else-arm is a conditional expression
+                # and needs no parentheses): right-associative grouping matters
+                third = ("%s ? %s : %s" % (W(e(), 1), W(e(), M.L_COMMA), W(third, M.L_COND)), M.L_COND)
+            return ("%s ? %s : %s" % (W(e(), 1), W(e(), M.L_COMMA), W(third, M.L_COND)), M.L_COND)
         if k == 9:
             return ("%s, %s" % (W(e(), M.L_ASG), W(e(), M.L_ASG)), M.L_COMMA)
         if k == 10:
